@@ -134,6 +134,8 @@ pub fn block_on<F: Future>(fut: F) -> Result<F::Output, &'static str> {
 pub struct Table {
     /// 0 = unused, 1 = live, 2 = dropped
     state: Vec<u8>,
+    /// element tag of every instance (feature `small-elements` keeps it here instead of in the element)
+    tags: Vec<u32>,
     pub live: usize,
     pub created: u64,
     pub cloned: u64,
@@ -149,6 +151,7 @@ pub fn table_reset() {
     TABLE.with(|t| {
         let mut t = t.borrow_mut();
         t.state.clear();
+        t.tags.clear();
         t.live = 0;
         t.faults.clear();
     });
@@ -171,11 +174,12 @@ pub fn table_counts() -> (u64, u64, u64) {
     })
 }
 
-fn table_alloc(cloned: bool) -> u32 {
+fn table_alloc(cloned: bool, tag: Option<u32>) -> u32 {
     TABLE.with(|t| {
         let mut t = t.borrow_mut();
         let id = t.state.len() as u32;
         t.state.push(1);
+        t.tags.push(tag.unwrap_or(id));
         t.live += 1;
         if cloned {
             t.cloned += 1;
@@ -208,7 +212,10 @@ fn table_check_live(id: u32, what: &str) {
 pub struct Tracked {
     pub v: u32,
     pub id: u32,
-    pub tag: u32,
+    /// (with feature `small-elements` the tag lives in the table and the element is 8 bytes: not larger than a
+    /// machine word)
+    #[cfg(not(feature = "small-elements"))]
+    tag_: u32,
     /// the element's size is a build-time parameter of the harness (cargo features `big-elements`: 164 bytes,
     /// `huge-elements`: 4236 bytes), so that code paths chosen by `size_of::<T>()` are driven too
     pub pad: Pad,
@@ -227,11 +234,33 @@ fn pad_of(v: u32) -> Pad {
 
 impl Tracked {
     pub fn new(v: u32) -> Self {
-        let id = table_alloc(false);
-        Tracked { v, id, tag: id, pad: pad_of(v) }
+        let id = table_alloc(false, None);
+        Tracked {
+            v,
+            id,
+            #[cfg(not(feature = "small-elements"))]
+            tag_: id,
+            pad: pad_of(v),
+        }
     }
     pub fn with_tag(v: u32, tag: u32) -> Self {
-        Tracked { v, id: table_alloc(false), tag, pad: pad_of(v) }
+        Tracked {
+            v,
+            id: table_alloc(false, Some(tag)),
+            #[cfg(not(feature = "small-elements"))]
+            tag_: tag,
+            pad: pad_of(v),
+        }
+    }
+    /// element identity (copied by `clone`)
+    #[cfg(not(feature = "small-elements"))]
+    pub fn tag(&self) -> u32 {
+        self.tag_
+    }
+    #[cfg(feature = "small-elements")]
+    pub fn tag(&self) -> u32 {
+        let id = self.id;
+        TABLE.try_with(|t| t.try_borrow().ok().and_then(|t| t.tags.get(id as usize).copied())).ok().flatten().unwrap_or(id)
     }
 }
 
@@ -280,7 +309,14 @@ impl Clone for Tracked {
         if self.pad != pad_of(self.v) {
             TABLE.with(|t| t.borrow_mut().faults.push(format!("clone of id {}: the element's bytes were damaged", self.id)));
         }
-        Tracked { v: self.v, id: table_alloc(true), tag: self.tag, pad: self.pad }
+        let tag = self.tag();
+        Tracked {
+            v: self.v,
+            id: table_alloc(true, Some(tag)),
+            #[cfg(not(feature = "small-elements"))]
+            tag_: tag,
+            pad: self.pad,
+        }
     }
 }
 
@@ -344,7 +380,7 @@ pub struct Item {
 }
 impl From<&Tracked> for Item {
     fn from(t: &Tracked) -> Self {
-        Item { v: t.v, id: t.tag }
+        Item { v: t.v, id: t.tag() }
     }
 }
 
